@@ -492,6 +492,8 @@ def run(ctx):
     ctx.do(c13.r13_5)
     from . import c16 as _c16
     ctx.do(_c16.r16_5)  # COPYUID reports the UID looked up for each added key
+    from . import c03 as _c03b
+    ctx.do(_c03b.r3_7)  # the reverse indexes every UID look-up goes through are rebuilt whenever the lists change
     for k, v in NEXT_UID_WRITERS.items():
         ctx.trust(f"frozen next_uid writer: {k} - {v}")
     for k, v in COMMIT_EXEMPT.items():
